@@ -754,6 +754,10 @@ class RemovalInLaterSession(Contract):
                     for read_first in (False, True):
                         for fill in ("explicit-nan", "short-assignment"):
                             yield {"kind": kind, "op": op, "indices": idx, "read_first": read_first, "fill": fill}
+        # a data set that has no values yet (created with its association only) sits among the children: nothing to trim there
+        for kind in ("points", "curve"):
+            for session in ("same", "later"):
+                yield {"kind": kind, "op": "remove_vertices", "indices": [0, 3], "read_first": False, "fill": "explicit-nan", "valueless_child": True, "session": session}
 
     def native_check(self, case):
         import os
@@ -773,6 +777,8 @@ class RemovalInLaterSession(Contract):
             path = os.path.join(d, "s.geoh5")
             with Workspace.create(path) as ws:
                 obj = (Points.create(ws, name="o", vertices=verts) if case["kind"] == "points" else Curve.create(ws, name="o", vertices=verts, cells=cells))
+                if case.get("valueless_child"):
+                    obj.add_data({"pending": {"association": "VERTEX"}})
                 if case["fill"] == "explicit-nan":
                     obj.add_data({"vf": {"values": vfull.copy(), "association": "VERTEX"}})
                     want_v = vfull.copy()
@@ -784,13 +790,24 @@ class RemovalInLaterSession(Contract):
                 if case["kind"] == "curve":
                     obj.add_data({"cf": {"values": cfull.copy(), "association": "CELL"}})
                     want_c = cfull.copy()
+                if case.get("session") == "same":
+                    try:
+                        obj.remove_vertices(list(case["indices"]))
+                    except Exception as exc:
+                        left = {c.name: (None if getattr(c, "_values", None) is None else len(np.atleast_1d(c._values))) for c in obj.children if hasattr(c, "values")}
+                        return f"remove_vertices({case['indices']}) on an object holding a data set without values failed with {type(exc).__name__}; the object now has {obj.n_vertices} vertices and data of lengths {left} ({case})"
             idx = list(case["indices"])
             with Workspace(path, mode="r+") as ws:
                 obj = ws.get_entity("o")[0]
                 if case["read_first"]:
                     for c in obj.children:
                         _ = getattr(c, "values", None)
-                getattr(obj, case["op"])(idx)
+                if case.get("session") != "same":
+                    try:
+                        getattr(obj, case["op"])(idx)
+                    except Exception as exc:
+                        left = {c.name: (None if getattr(c, "_values", None) is None else len(np.atleast_1d(c._values))) for c in obj.children if hasattr(c, "values")}
+                        return f"{case['op']}({idx}) failed with {type(exc).__name__}: {str(exc)[:80]}; the object now has {obj.n_vertices} vertices and data of lengths {left} ({case})"
                 if case["op"] == "remove_vertices":
                     keep_v = np.setdiff1d(np.arange(n), idx)
                     keep_c = None if want_c is None else np.array([k for k in range(n - 1) if cells[k, 0] not in idx and cells[k, 1] not in idx])
